@@ -54,6 +54,7 @@ Proof.
                   match r with
                   | a :: b :: r2 =>
                       if zlen r2 <? Z.lor (Z.shiftl a 8) b then Err EShort
+                      else if negb (agg_clean (S (length r2)) donl (drop (Z.lor (Z.shiftl a 8) b) r2)) then Err EShort
                       else match agg_others (S (length r2)) donl (drop (Z.lor (Z.shiftl a 8) b) r2) [] with
                            | [] => Err EShort
                            | _ :: _ => Ok (PAgg fd (take (Z.lor (Z.shiftl a 8) b) r2)
@@ -62,6 +63,7 @@ Proof.
                   | _ => Err EShort
                   end <> Panic).
         { intros fd r. destruct r as [|a [|b r2]]; try discriminate. case_if; [discriminate|].
+          case_if; [discriminate|].
           destruct (agg_others _ _ _ _); discriminate. }
         destruct donl; [destruct rest as [|d0 [|d1 r1]]; try discriminate|]; apply Hafter.
       * (* single NAL unit *)
